@@ -565,6 +565,11 @@ def fn_sum(ip, a):
         if len(z) > 1:
             raise XPError('XPTY0004', 'sum: $zero must be at most one item')
         return z
+    only = atomize(a[0])
+    if len(only) == 1 and not is_num(only[0]) and only[0][0] != 'u':
+        # F&O 3.1 fn:sum: "if the converted sequence contains exactly one value then that value is
+        # returned" vs "all values must be numeric": the text is contradictory for one non-numeric item
+        raise Budget('sum of a single non-numeric item: no verdict')
     vals = _numeric_values(a[0], 'sum')      # $zero is not needed (XPath 3.1 2.3.4: need not be evaluated)
     acc = vals[0]
     for it in vals[1:]:
